@@ -315,6 +315,7 @@ pub fn events_to_json(events: &[Event]) -> J {
             Event::EvalEnd { ok, frames } => json!(["end", ok, frames]),
             Event::ThunkSwitch { id, from, to } => json!(["sw", id, from, to]),
             Event::ThunkDone { id, was } => json!(["dn", id, was]),
+            Event::ThunkRestore { id } => json!(["restore", id]),
             Event::FramePush { frames } => json!(["fpush", frames]),
             Event::FrameDelay { frames } => json!(["fdelay", frames]),
             Event::FramePop { frames } => json!(["fpop", frames]),
